@@ -19,6 +19,7 @@ type Sorts struct {
 	byType  map[string]string // types.TypeString -> sort
 	strLits map[string]string
 	fltLits map[string]string
+	nbox   int
 	nfresh  int
 	nameOwner map[string]string
 }
@@ -131,6 +132,21 @@ func (s *Sorts) declareFun(name string, args []string, ret string) {
 	}
 	s.declSeen[name] = true
 	s.decls = append(s.decls, fmt.Sprintf("(declare-fun %s (%s) %s)", name, strings.Join(args, " "), ret))
+}
+
+// boxFun declares the MakeInterface encoding of a concrete type: injective, and tagged with the dynamic type so that
+// boxes of different types differ.
+func (s *Sorts) boxFun(tn, so string) string {
+	fn := "mi_" + tn
+	if s.declSeen[fn] {
+		return fn
+	}
+	s.declareFun(fn, []string{so}, "Int")
+	s.declareFun("mi_inv_"+tn, []string{"Int"}, so)
+	s.declareFun("itype", []string{"Int"}, "Int")
+	s.nbox++
+	s.decls = append(s.decls, fmt.Sprintf("(assert (forall ((q!b %s)) (! (and (= (mi_inv_%s (%s q!b)) q!b) (= (itype (%s q!b)) %d) (> (%s q!b) 0)) :pattern ((%s q!b)))))", so, tn, fn, fn, s.nbox, fn, fn))
+	return fn
 }
 
 func (s *Sorts) fresh(prefix, sort string) string {
